@@ -136,7 +136,7 @@ def _worker_chunk(args):
             signal.setitimer(signal.ITIMER_REAL, 0)
         out["runs"] += 1
         out["steps"] += res.steps
-        out["logs"].append((idx, res.log))
+        out["logs"].append((idx, res.log, res.config.get("run_class", "")))
         profile.aggregate(out["agg"], res)
         if res.violation:
             out["violations"].append({"index": idx, "seed": res.seed, "config": res.config, "ops": res.ops,
@@ -203,7 +203,7 @@ def run_batch(profile, base_seed, tier, n_runs, jobs, wall_cap_s, n_samples=3, c
     merged["samples"] = merged["samples"][:n_samples]
     merged["wall_s"] = time.time() - t0
     h = hashlib.sha256()
-    for idx, lg in sorted(merged["logs"]):
+    for idx, lg, _rc in sorted(merged["logs"]):
         h.update(("%d:%s;" % (idx, lg)).encode())
     merged["batch_digest"] = h.hexdigest()
     return merged
